@@ -479,6 +479,8 @@ pub struct RichOpts {
     /// allow SHF_COMPRESSED sections
     pub allow_compressed: bool,
     pub max_names: usize,
+    /// probability (/256) that one section's declared sh_size is made smaller than its real body
+    pub shrink_chance: u32,
 }
 
 #[derive(Clone, Debug)]
@@ -833,6 +835,12 @@ pub fn rich_file(c: &mut Choice, o: &RichOpts) -> Rich {
                         "sh_type" => h.sh_type as u64,
                         _ => 0,
                     };
+                    if c.chance(50) && h.sh_size > 0 {
+                        // declared size smaller than the real body: data beyond the declared range must not be used
+                        let v = c.below(h.sh_size);
+                        f.overrides.push(Override { target: Target::Shdr(i), field: "sh_size", value: v });
+                        continue;
+                    }
                     let v = if fld == "sh_type" && c.bool() { *c.pick(&[0u64, 1, 2, 3, 4, 5, 6, 7, 8, 9, 11, 0x6ffffff6, 0x6ffffffd, 0x6ffffffe, 0x6fffffff]) } else if fld == "sh_link" && c.bool() { c.below(nsec as u64 + 1) } else { boundary_for(c, file_len, own) };
                     f.overrides.push(Override { target: Target::Shdr(i), field: fld, value: v });
                 }
@@ -851,6 +859,23 @@ pub fn rich_file(c: &mut Choice, o: &RichOpts) -> Rich {
                     f.overrides.push(Override { target: Target::Phdr(i), field: fld, value: v });
                 }
                 _ => {}
+            }
+        }
+    }
+    if c.chance(o.shrink_chance) && !first.shdrs.is_empty() {
+        // prefer the record-structured sections (version, symbol, hash, note, dynamic)
+        let cands: Vec<usize> = (0..kinds.len().min(first.shdrs.len())).filter(|i| matches!(kinds[*i], Kind::Verdef | Kind::Verneed | Kind::Versym | Kind::Dynsym | Kind::Symtab | Kind::Hash | Kind::GnuHash | Kind::Note | Kind::Dynamic | Kind::Rel | Kind::Rela)).collect();
+        if !cands.is_empty() {
+            let i = cands[c.idx(cands.len())];
+            let own = first.shdrs[i].sh_size;
+            if own > 0 {
+                let v = match c.below(3) {
+                    0 => own / 2,
+                    1 => own.saturating_sub(*c.pick(&[8u64, 16, 20, 24, 1, 2])),
+                    _ => c.below(own),
+                };
+                f.overrides.push(Override { target: Target::Shdr(i), field: "sh_size", value: v });
+                n_over += 1;
             }
         }
     }
